@@ -465,11 +465,24 @@ def _livepatch__class(oldclass, newclass, modname, cache, visit_stack):
     # __slots__ or not.  The class type itself will always use a __dict__.
     if olddict.get("__slots__") != newdict.get("__slots__"):
         return newclass
-    if oldclass.__bases__ != newclass.__bases__:
+    # A base class that also gets livepatched keeps its identity: point
+    # ``__bases__`` at the livepatched (old) base, not at the new copy of it.
+    old_bases_by_name = dict(
+        ((b.__module__, b.__name__), b) for b in oldclass.__bases__)
+    new_bases = []
+    for newbase in newclass.__bases__:
+        oldbase = old_bases_by_name.get(
+            (newbase.__module__, newbase.__name__))
+        if oldbase is not None:
+            newbase = livepatch(oldbase, newbase, modname=modname,
+                                cache=cache, visit_stack=visit_stack)
+        new_bases.append(newbase)
+    new_bases = tuple(new_bases)
+    if oldclass.__bases__ != new_bases:
         # Python refuses some re-parentings (e.g. away from ``object``); in
         # that case the class can't be livepatched.
         try:
-            oldclass.__bases__ = newclass.__bases__
+            oldclass.__bases__ = new_bases
         except TypeError:
             return newclass
     # ``__dict__`` and ``__weakref__`` are per-class descriptors created by
